@@ -34,7 +34,6 @@ CONT = {
     "arc":   ("i32", "let v = Arc::new(xs.to_vec());", "&v"),
     "opt":   ("Option<i32>", "let base: Vec<Option<i32>> = xs.to_vec(); let v = base.opt();", "&v"),
 }
-ENUM = ()   # containers whose slice bounds are enumerated instead of symbolic (measured: no gain; unused)
 HEAVY = ("deq0", "deq1", "nd", "ndv1", "nd2", "ndrev")
 QUICK = ["vec", "arr", "slc", "deq0", "deq1", "nd", "ndv1", "nd2", "ndrev", "arc", "opt"]
 THOROUGH_ONLY = {"deq2": [[3], [4]], "deq3": [[4]], "nd3": [[0], [1], [2], [3], [4]], "ndm2": [[0], [1], [2], [3], [4]]}
@@ -69,7 +68,7 @@ def acc(be, ns, thorough):
         L.append(f"        let xs: [{T}; {n}] = kani::any();")
         L.append("        " + setup.replace("{N}", str(n)))
         L.append(f"        acc_view::<{T}, _, {n}>({ref}, &xs);")
-        L.append(f"        acc_slice{'_enum' if be in ENUM else ''}!({ref}, xs, {n}, fl);")
+        L.append(f"        acc_slice!({ref}, xs, {n}, fl);")
         if be != "ndrev":        # the reversed view's try_as_slice is a known defect: isolated in c07_tas_ndrev_*
             L.append(f"        acc_tas::<{T}, _, {n}>({ref}, &xs, &mut fl);")
         L.append("    }")
@@ -108,7 +107,7 @@ E2E = [
     ("tsvsum_vec_ndrev", "e2e_tsvsum_vec_ndrev", [2], [3, 4]),
     ("tsvmin_vec_deq", "e2e_tsvmin_vec_deq", [], [2, 3]),
     ("vshift_vec_deq", "e2e_vshift_vec_deq", [2], [3]),
-    ("vshift_vec_nd", "e2e_vshift_vec_nd", [2], [3]),
+    ("vshift_vec_nd", "e2e_vshift_vec_nd", [], [2, 3]),        # 325 s measured at N = 2
     ("agg_arr_deq_ndrev", "e2e_agg", [2], [3, 4]),
     ("agg_nd2_arc_nd", "e2e_agg2", [], [2, 3]),
     ("out_tsvsum_vec", "e2e_out_tsvsum_vec", [2], [3, 4]),
